@@ -1,1 +1,76 @@
-fn main(){}
+//! essim — entry point of the E1 simulation engine.
+//!   essim run <PROP> <quick|thorough>     run the property's batches (parent process)
+//!   essim worker …                         (internal) one worker slice
+//!   essim replay <file>                    re-run one recorded violation
+//!   essim case <PROP> <batch> <run_seed>   run a single generated case in this process
+use simcore::driver::{self, Family};
+
+fn family(prop: &str) -> Option<&'static Family> {
+    match prop {
+        "C01" | "C02" | "C03" | "C04" => Some(&simcore::props::FAMILY),
+        _ => None,
+    }
+}
+
+fn family_of_payload(doc: &serde_json::Value) -> Option<&'static Family> {
+    doc["property"].as_str().and_then(family)
+}
+
+fn main() {
+    // the schedulers must only ever be seeded by us
+    std::env::remove_var("SHUTTLE_RANDOM_SEED");
+    simcore::runner::install_panic_hook();
+    simcore::hooks::install();
+    let args: Vec<String> = std::env::args().collect();
+    let code = match args.get(1).map(|s| s.as_str()) {
+        Some("run") if args.len() >= 4 => match family(&args[2]) {
+            Some(f) => {
+                let nw = std::env::var("VERIF_WORKERS").ok().and_then(|s| s.parse().ok()).unwrap_or(16);
+                driver::run(f, &args[2], &args[3], nw)
+            }
+            None => {
+                eprintln!("unknown property {}", args[2]);
+                2
+            }
+        },
+        Some("worker") if args.len() >= 8 => {
+            let f = family(&args[2]).expect("family");
+            driver::worker(
+                f,
+                &args[2],
+                &args[3],
+                args[4].parse().unwrap(),
+                args[5].parse().unwrap(),
+                args[6].parse().unwrap(),
+                std::path::Path::new(&args[7]),
+            );
+            0
+        }
+        Some("replay") if args.len() >= 3 => {
+            let doc: serde_json::Value = std::fs::read(&args[2])
+                .ok()
+                .and_then(|b| serde_json::from_slice(&b).ok())
+                .unwrap_or(serde_json::Value::Null);
+            match family_of_payload(&doc) {
+                Some(f) => driver::replay_file(f, &args[2]),
+                None => {
+                    println!("REPLAY error: no property in {}", args[2]);
+                    2
+                }
+            }
+        }
+        Some("case") if args.len() >= 5 => {
+            let f = family(&args[2]).expect("family");
+            let out = (f.run_case)(&args[2], &args[3], args[4].parse().unwrap());
+            for (fi, _) in &out.findings {
+                println!("FINDING class={} {}", fi.class, fi.message);
+            }
+            if out.findings.is_empty() { 0 } else { 1 }
+        }
+        _ => {
+            eprintln!("usage: essim run <PROP> <quick|thorough> | replay <file> | case <PROP> <batch> <run_seed>");
+            2
+        }
+    };
+    std::process::exit(code);
+}
